@@ -389,6 +389,25 @@ type sjCase struct {
 	i      int
 	amt    *big.Int
 	fee    sdkmath.LegacyDec
+	snap   int // 0: the block snapshot handed to JoinPool is the pool itself; k>0: the pool as it was before earlier operations of the same block
+}
+
+// sjSnapshot builds the per-block snapshot argument: the same pool with reserves and share supply as they might have been
+// at the start of the block (before same-block swaps, joins or exits). The shares minted must not depend on it.
+func sjSnapshot(c *sjCase) ammtypes.Pool {
+	f := [][3]int64{{1, 1, 1}, {1, 2, 1}, {2, 1, 1}, {9, 10, 2}, {11, 10, 3}, {1, 1, 2}}[c.snap%6] // reserve of i: num/den; shares: *k
+	lc := &lpCase{shares: new(big.Int).Mul(c.shares, big.NewInt(f[2]))}
+	for k, b := range c.bals {
+		nb := new(big.Int).Set(b)
+		if k == c.i || c.snap%2 == 1 {
+			nb.Mul(nb, big.NewInt(f[0]))
+			nb.Quo(nb, big.NewInt(f[1]))
+		}
+		lc.bals = append(lc.bals, nb)
+	}
+	p := mkLpPool(lc)
+	p.PoolParams.SwapFee = c.fee
+	return p
 }
 
 func lpWeight(i int) int64 { return int64(1 + i) }
@@ -408,11 +427,17 @@ func runSingleJoin(ctx sdk.Context, c *sjCase, out *Out, stats map[string]int) {
 	var slip sdkmath.LegacyDec
 	kind, text := guard(func() error {
 		var err error
-		_, minted, slip, _, err = pool.JoinPool(ctx, &pool, nil, accStub{}, sdk.Coins{sdk.Coin{Denom: lpDenom(c.i), Amount: sdkmath.NewIntFromBigInt(c.amt)}}, ammtypes.DefaultParams())
+		snapshot := &pool
+		if c.snap > 0 {
+			sp := sjSnapshot(c)
+			snapshot = &sp
+		}
+		_, minted, slip, _, err = pool.JoinPool(ctx, snapshot, nil, accStub{}, sdk.Coins{sdk.Coin{Denom: lpDenom(c.i), Amount: sdkmath.NewIntFromBigInt(c.amt)}}, ammtypes.DefaultParams())
 		return err
 	})
 	line := map[string]any{"t": "c05.case", "fn": "sjoin", "stream": c.stream, "bals": strs(c.bals), "ws": ws, "totalW": pool.TotalWeight.String(),
-		"S": c.shares.String(), "i": c.i, "amt": c.amt.String(), "fee": c.fee.BigInt().String(), "res": kind}
+		"S": c.shares.String(), "i": c.i, "amt": c.amt.String(), "fee": c.fee.BigInt().String(), "res": kind, "snapshotVariant": c.snap}
+	stats["sjoin/snapshot-differs-from-pool/"+map[bool]string{false: "no", true: "yes"}[c.snap > 0]]++
 	if kind == "ok" {
 		line["minted"] = minted.String()
 		line["slip"] = slip.BigInt().String()
@@ -448,6 +473,9 @@ func runSingleJoin(ctx sdk.Context, c *sjCase, out *Out, stats map[string]int) {
 
 func randSingleJoin(r *rand.Rand) *sjCase {
 	c := &sjCase{stream: "rand"}
+	if r.Intn(2) == 0 {
+		c.snap = 1 + r.Intn(11)
+	}
 	n := 2 + r.Intn(3)
 	for k := 0; k < n; k++ {
 		c.bals = append(c.bals, logUniform(r, 0, 30))
